@@ -545,7 +545,7 @@ class StateEngine(object):
         in the ASL Engine at the moment this defensive logic will terminate
         the execution should this situation occur.
         """
-        if next_state == None or next_state == "":
+        if not next_state or not isinstance(next_state, str):
             error_message = ("{} an error occurred while executing the state "
                              "\"{}\": Mandatory \"Next\" field is missing, "
                              "Illegal State Machine."
